@@ -176,6 +176,12 @@ def check_flush(ctx, num=3, only=None):
             ok = len(eq) >= 1
             ctx.ob(num, "K16", f"{meth}: an element joins the current group only if its {keyattr} is exactly equal (==) to the group's", ok, f, a,
                    detail=f"facts at the append: {sorted(norm.show(z) for z in fs)}")
+        # the boundary between two groups is a change of the key and nothing else: where a new group is started the key differs (or there is no group yet)
+        for s_ in starts:
+            fs_ = g.facts_at(poolmod.block_of(s_)[0])      # what holds where the branch that starts the group is entered (the key variable is re-set inside it)
+            okb = any((z[0] == "cmp" and z[1] == "!=" and (keyattr in z[2] or keyattr in z[3])) or (z[0] == "cmp" and z[1] == "is" and z[3] == "None") for z in fs_)
+            ctx.ob(num, "K16", f"{meth}: a new group is started only where the {keyattr} changes (rows with the same {keyattr} are never split over two groups)", okb, f, s_,
+                   construct="group boundary = change of key", detail=f"facts at the start of a group: {sorted(norm.show(z) for z in fs_)[:8]}")
         # yield-before-reset: a group start that is not the first must be preceded by a yield of the old group in the same iteration
         ys = [n for n in g.nodes if n.is_yield and n.ast is not None and any(n.ast is z for z in ast.walk(lp))]
         IN_noyield = g.facts(blocked={y.id for y in ys})
@@ -333,6 +339,22 @@ def check_params(ctx, num=5):
                 stores.append(n)
         ctx.ob(num, "K1", f"{q} uses the completed parameters as they are (no entry is rewritten before the generator is built from them)", not stores, f,
                stores[0] if stores else f.node, construct=f"no store to {pn}[..]", detail=f"{[stmt_text(x)[:80] for x in stores]}" if stores else "no subscript store / update on the parameter dict")
+    # the trace holds every row the generator produced: the writing loop hands each row to the writer in the iteration that produced it
+    for cmd in ("gentrace_command", "mkregression_command"):
+        f = P.fn(MAIN, cmd)
+        g = cfg_of(f, subst_env=False)
+        loops = [n for n in own_nodes(f.node) if isinstance(n, ast.For) and isinstance(n.iter, ast.Call) and norm.call_name(n.iter) == "generate_rows" and isinstance(n.target, ast.Name)]
+        ok = len(loops) == 1
+        d = f"{len(loops)} loop(s) over generate_rows()"
+        if ok:
+            lp = loops[0]
+            ws = [c for c in ast.walk(lp) if isinstance(c, ast.Call) and isinstance(c.func, ast.Attribute) and c.func.attr == "write_row" and len(c.args) == 1 and norm.is_name(c.args[0], lp.target.id)]
+            hid = g.node_of(lp).id
+            skip = g.path_avoiding(hid, {hid, g.exit.id}, {g.node_of(w).id for w in ws}, edge_ok=lambda a, b, lab, hid=hid: not (a == hid and lab == "done")) if ws else [hid]
+            ok = len(ws) == 1 and skip is None
+            d = f"write_row(<row>) sites in the loop: {len(ws)}; reached in every iteration: {skip is None}"
+        ctx.ob(num, "K3", f"{cmd} writes every row the trace generator yields (each row in the iteration that produced it: none is held back, none is dropped)", ok, f,
+               loops[0] if loops else f.node, construct="for row in generate_rows(): writer.write_row(row)", detail=d)
     gw = P.fn(WL, "WorkloadReader.get_workload")
     ctx.touch(gw)
     rs = [r for r in own_nodes(gw.node) if isinstance(r, ast.Return)]
